@@ -87,6 +87,9 @@ def _p1_function(f: Func, res: RuleResult, orig_vars: Set[str], extra_flags: Lis
                 continue
             if not consistent(p, flags, temporal_tests):
                 continue
+            if orig_vars and not any(isinstance(n, ast.Name) and isinstance(n.ctx, ast.Store) and n.id in orig_vars
+                                     for st in p.stmts for n in ast.walk(st)):
+                continue            # nothing was cast on this path (it leaves before the cast)
             n_paths += 1
             restored = None
             conv_bound: Dict[str, str] = {}
@@ -119,7 +122,8 @@ def _orig_dtype_vars(f: Func) -> Set[str]:
     out: Set[str] = set()
 
     def mentions_cast(e) -> bool:
-        return any(isinstance(n, ast.Name) and n.id == "_cast_timestamps_to_ints" for n in ast.walk(e))
+        return any((isinstance(n, ast.Name) and n.id == "_cast_timestamps_to_ints")
+                   or (isinstance(n, ast.Attribute) and n.attr == "_cast_timestamps_to_ints") for n in ast.walk(e))
 
     for n in walk_no_nested(f.node):
         if isinstance(n, ast.Assign) and len(n.targets) == 1 and isinstance(n.targets[0], ast.Tuple) \
